@@ -1119,6 +1119,29 @@ func cmdRun(args []string) {
 
 var certSerialRe = regexp.MustCompile(`\.hapsim#[0-9]+|hapsim-ca#[0-9]+`)
 
+// digest is the signature of one run: its trace up to the final sync point, verdict and probes.
+func digest(r *Result) string {
+	h := sha256.New()
+	for _, l := range r.Trace {
+		if strings.Contains(l, "SYNC POINT final") {
+			break // what follows is the teardown of the controller (log lines of parallel shutdowns)
+		}
+		if strings.Contains(l, `"msg"="enqueue reconciliation due to leader acquired"`) || strings.Contains(l, `log services/acme/client`) {
+			continue // log lines of the goroutines a lease change starts in parallel
+		}
+		if strings.Contains(l, `"msg"="Starting EventSource"`) {
+			// controller-runtime starts its sources from parallel goroutines; only the order
+			// of these log lines depends on it (handlers are driven by SimKube, kind by kind)
+			continue
+		}
+		// (certificates are generated once per process: their serial numbers, which witnesses quote, differ between processes)
+		h.Write([]byte(certSerialRe.ReplaceAllString(l, "#N")))
+		h.Write([]byte{'\n'})
+	}
+	fmt.Fprintf(h, "%s %v", r.Verdict, r.Probes)
+	return hex.EncodeToString(h.Sum(nil))[:16]
+}
+
 // selftest-determinism: every seed twice per GOMAXPROCS setting; trace signatures and verdicts must agree.
 func cmdDeterminism(args []string) {
 	fl := flag.NewFlagSet("det", flag.ExitOnError)
@@ -1140,25 +1163,7 @@ func cmdDeterminism(args []string) {
 				trouble("%v %s", err, tail(diag, 2000))
 			}
 			for _, r := range res {
-				h := sha256.New()
-				for _, l := range r.Trace {
-					if strings.Contains(l, "SYNC POINT final") {
-						break // what follows is the teardown of the controller (log lines of parallel shutdowns)
-					}
-					if strings.Contains(l, `"msg"="enqueue reconciliation due to leader acquired"`) || strings.Contains(l, `log services/acme/client`) {
-						continue // log lines of the goroutines a lease change starts in parallel
-					}
-					if strings.Contains(l, `"msg"="Starting EventSource"`) {
-						// controller-runtime starts its sources from parallel goroutines; only the order
-						// of these log lines depends on it (handlers are driven by SimKube, kind by kind)
-						continue
-					}
-					// (certificates are generated once per process: their serial numbers, which witnesses quote, differ between processes)
-					h.Write([]byte(certSerialRe.ReplaceAllString(l, "#N")))
-					h.Write([]byte{'\n'})
-				}
-				fmt.Fprintf(h, "%s %v", r.Verdict, r.Probes)
-				d := hex.EncodeToString(h.Sum(nil))[:16]
+				d := digest(r)
 				total++
 				if prev, ok := ref[r.Seed]; ok {
 					if prev != d {
@@ -1168,6 +1173,32 @@ func cmdDeterminism(args []string) {
 				} else {
 					ref[r.Seed] = d
 				}
+			}
+		}
+	}
+	// a run must not depend on what ran before it in the same process: a sample of the seeds alone, and the
+	// whole range again starting in the middle
+	first, count := uint64(1), 40
+	fmt.Sscanf(*seeds, "%d:%d", &first, &count)
+	var variants []string
+	for i := 0; i < count && i < 6; i++ {
+		variants = append(variants, fmt.Sprintf("%d:1", first+uint64(i*7%count)))
+	}
+	if count > 2 {
+		variants = append(variants, fmt.Sprintf("%d:%d", first+uint64(count/2), count-count/2))
+	}
+	os.Setenv("HAPSIM_GOMAXPROCS", "4")
+	for _, v := range variants {
+		res, diag, err := runSim(binDir, map[string]string{"HAPSIM_PROP": prop, "HAPSIM_SEEDS": v, "HAPSIM_TRACE": "1"}, time.Hour)
+		if err != nil {
+			trouble("%v %s", err, tail(diag, 2000))
+		}
+		for _, r := range res {
+			d := digest(r)
+			total++
+			if prev, ok := ref[r.Seed]; ok && prev != d {
+				bad++
+				fmt.Printf("NONDETERMINISM seed=%d depends on the runs before it in the process (seeds %s)\n", r.Seed, v)
 			}
 		}
 	}
